@@ -286,7 +286,7 @@ def _obs(o):
 OBSERVING = ("get", "take", "take_race", "take_nested", "held", "size")
 
 
-def flatten_cache(ops, seen, expand=True):
+def flatten_cache(ops, seen, expand=True, take_first=()):
     """Cache histories as the models read them: bulk operations expanded, and every gated Take
     (`take_gate k v inner`: the loader is held while `inner` runs on another goroutine) put at its
     linearisation point - where its loader returned and the loaded value was stored: after the
@@ -296,6 +296,7 @@ def flatten_cache(ops, seen, expand=True):
     result in front of the inner ones).  Returns (flat ops, flat observations)."""
     it = iter(seen)
     fops, fseen = [], []
+    gi = 0
 
     def emit(o):
         if o[0] == "delseq" and expand:
@@ -316,6 +317,9 @@ def flatten_cache(ops, seen, expand=True):
         n = 0
         if r is not None and r[0] == "take" and len(r) >= 5 and r[3]:
             n = max(0, min(len(o[3]), int(r[4])))
+        if gi in take_first:
+            n = 0          # the alternative linearisation: the whole Take precedes the inner operations
+        gi += 1
         for x in o[3][:n]:
             emit(x)
         fops.append(["take", o[1], o[2]])
@@ -547,6 +551,10 @@ class C16(Property):
                    [["set", 2, 20], ["set", 3, 30], ["take_gate", 1, 10, [["set", c0, 5], ["del", c0], ["get", 3], ["held"]]],
                     ["held"], ["get", 1], ["take", 1, 9], ["set", 4, 40], ["held"],
                     ["take_gate", 5, 50, [["set", c0, 6], ["set", 901, 7], ["held"]]], ["held"], ["get", 5], ["take", 5, 51]]})
+        # ... and the SAME key deleted while its loader is held: stored after the Del, or Take-then-Del; nothing else
+        for lim in (0, 2):
+            cs.append({"kind": "cache", "limit": lim, "ops":
+                       [["set", 2, 20], ["take_gate", 1, 10, [["del", 1], ["get", 2]]], ["held"], ["get", 1], ["take", 1, 99], ["held"]]})
         cs.append({"kind": "cachew", "limit": 0, "expire_ms": e2, "ops":
                    [["set", c0, 7, e1], ["set", 2, 20, e3], ["take_gate", 1, 10, [["tick"], ["get", c0], ["held"]]],
                     ["get", 1], ["held"]] + T + [["get", 1], ["take", 1, 99]] + T + G(1, 2) + [["held"]]})
@@ -1242,12 +1250,18 @@ class C16(Property):
         for _ in range(rng.randint(0, 6)):
             o = rng.choice(small)
             ops.append(rng.choice([["set", o, val()], ["take", o, val()], ["get", o], ["del", o]]))
+        selfdel = False
         for _ in range(rng.randint(1, 2)):
             k = rng.choice(small)
             others = [x for x in small if x != k]
             if rng.random() < 0.8:
                 ops.append(["del", k])      # absent: the Take will load (otherwise it may hit: also legal)
             inner = self._gate_inner(rng, k, others, limit, val)
+            if not selfdel and rng.random() < 0.2:
+                # another goroutine Dels the key being loaded: the value is stored after the Del, or the
+                # Take is taken to precede it - either, nothing else
+                selfdel = True
+                inner.insert(rng.randint(0, len(inner)), ["del", k])
             ops.append(["take_gate", k, None if rng.random() < 0.12 else val(), inner])
             ops += [["held"], ["get", k], ["take", k, val()]]
             for _ in range(rng.randint(0, 4)):
@@ -1666,8 +1680,15 @@ class C16(Property):
             return "KSet %s %s" % (clist(sum([self._sops(o) for o in case["ops"]], [])), so)
         if k == "cache":
             fops, fseen = flatten_cache(case["ops"], seen, expand=False)
-            return "KCache %s %s %s" % (cz(case["limit"]), self._segments(self._cache_ops(fops, fseen)),
-                                        clist([_obs(o) for o in fseen]))
+            ta = (self._segments(self._cache_ops(fops, fseen)), clist([_obs(o) for o in fseen]))
+            # a gated Take whose inner operations Del the SAME key: two legal outcomes (see Check.KCacheEither)
+            gates = [o for o in case["ops"] if o[0] == "take_gate"]
+            same = [i for i, g in enumerate(gates) if any(x[0] == "del" and x[1] == g[1] for x in g[3])]
+            if len(same) == 1 and not obs.get("err"):
+                fb, sb = flatten_cache(case["ops"], seen, expand=False, take_first=(same[0],))
+                return "KCacheEither %s %s %s %s %s" % (cz(case["limit"]), ta[0], ta[1],
+                                                        self._segments(self._cache_ops(fb, sb)), clist([_obs(o) for o in sb]))
+            return "KCache %s %s %s" % (cz(case["limit"]), ta[0], ta[1])
         if k == "cache_rt":
             return "KCache %s %s %s" % (cz(case["limit"]), clist(sum([self._ccops(o) for o in self._rt_ops(case, obs)], [])), so)
         if k == "cachew":
